@@ -164,11 +164,17 @@ func c10exec(j run.Job, a *run.Acc) {
 	r := rand.New(rand.NewSource(j.Seed))
 	for it := 0; it < j.N; it++ {
 		k := 1 + r.Intn(4)
+		if r.Intn(50) == 0 {
+			k = 10 + r.Intn(30) // a long token sequence from time to time
+		}
 		var toks []c10tok
 		var raw strings.Builder
 		for i := 0; i < k; i++ {
 			kd := c10kinds[r.Intn(len(c10kinds))]
 			t := c10tok{Kind: kd.kind, Text: kd.text, Left: r.Intn(5) - 1, Right: r.Intn(5) - 1, Inner: []string{"left-inside", "right-inside"}[r.Intn(2)]}
+			if k > 4 { // long sequences: mostly permissive modes, otherwise they nearly always fail at the first gap
+				t.Left, t.Right = []int{-1, 2, 2, 1, 0}[r.Intn(5)], []int{-1, 2, 2, 1, 3}[r.Intn(5)]
+			}
 			if r.Intn(8) == 0 {
 				t.Trim = true
 			}
